@@ -250,6 +250,10 @@ def _write_replay(pid, idx, payload):
 def finish(run, matchers=None):
     """Classify, print the verdict lines, write the evidence, return the exit code."""
     matchers = matchers or {}
+    if os.path.isdir(REPLAYS):
+        for f in os.listdir(REPLAYS):
+            if f.startswith(run.pid + "_"):
+                os.remove(os.path.join(REPLAYS, f))
     findings = [f for f in load_findings() if f["property"] == run.pid]
     known = [f for f in findings if f.get("status") == "known"]
     known_hits = {}
